@@ -17,7 +17,7 @@ def _chunks(plan, tier, seed):
         k = max(1, min(k, n))
         per = (n + k - 1) // k
         for c in range(k):
-            jobs.append((s.name, seed * 1000003 + c * 7919 + 1, per, f"{tier}.{c}"))
+            jobs.append((s.name, seed * 1000003 + c * 7919 + 1, per, f"{tier}.{c}", s.crate))
     return jobs
 
 
@@ -67,6 +67,11 @@ def run_check(prop, plan, tier, seed, replay, t0):
         if not ok:
             problems.append(f"harness does not build ({prof}): {out[-1500:]}")
             profiles.remove(prof)
+    for crate in sorted({s.crate for s in plan["suites"]} | set(plan.get("crates", []))):
+        if crate == "core": continue
+        ok, out = cargo_build("debug", CRATES[crate][0])
+        if not ok:
+            problems.append(f"{crate} harness does not build: {out[-1500:]}")
     res = Result()
     have_model = os.path.exists(MODEL_EXE)
     violations = []
@@ -87,8 +92,8 @@ def run_check(prop, plan, tier, seed, replay, t0):
             for kind, path in jobs:
                 ops = [l for l in read_lines(path)]
                 futs.append((f"corpus:{os.path.basename(path)}", ex.submit(run_suite_chunk, prop, "corpus", 0, 0, os.path.basename(path), profiles, ops)))
-            for (suite, sd, n, tag) in chunk_jobs:
-                futs.append((f"{suite}:{tag}", ex.submit(run_suite_chunk, prop, suite, sd, n, tag, profiles)))
+            for (suite, sd, n, tag, crate) in chunk_jobs:
+                futs.append((f"{suite}:{tag}", ex.submit(run_suite_chunk, prop, suite, sd, n, tag, profiles, None, crate)))
             for name, f in futs:
                 r = f.result()
                 r["name"] = name
